@@ -27,7 +27,7 @@ ASSUMPTIONS = ['entries are pairwise-distinct concrete ids in a non-identity ord
                'tie indicators are integers in {0,1} (what numpy.random.choice([0,1], ...) returns)']
 LEVEL_TEXT = ('Path-exhaustive symbolic execution of the real writer and reader for every list length up to the bound, all tie-decision vectors '
               'covered by path conditions, claims discharged by z3; equivalent to all 2^n vectors per n within the bound.')
-LEVEL_NOTE = 'Trusted: z3, vf/sym.py. Outside: list lengths above the bound (quick 10, thorough 12).'
+LEVEL_NOTE = 'Trusted: z3, vf/sym.py. Outside: list lengths above the bound (quick 10, thorough 13).'
 TECHNIQUE = 'symbolic execution of create_string_pref o _get_simple_pref_list_and_ranks (symbolic tie decisions), z3 validity of per-path round-trip claims'
 RULE = 'one task per (list length n, level: functions / HR file / SPA file); each feasible path is a case; non-trivial = path with at least one tie decision constrained'
 EXHAUSTIVE = {'quick': True, 'thorough': True}
@@ -35,11 +35,11 @@ EXHAUSTIVE = {'quick': True, 'thorough': True}
 
 def BOUNDS(tier):
     return 'list length n = 1..%d, all tie-decision vectors (symbolic); file level: n <= %d, first and second side, 2-agent and 3-agent' % (
-        (10, 7) if tier == 'quick' else (12, 9))
+        (10, 7) if tier == 'quick' else (13, 10))
 
 
 def tasks(tier, seed):
-    N, NF = (10, 7) if tier == 'quick' else (12, 9)
+    N, NF = (10, 7) if tier == 'quick' else (13, 10)
     out = [{'n': n, 'level': 'func'} for n in range(1, N + 1)]
     out += [{'n': n, 'level': lv} for n in range(1, NF + 1) for lv in ('hr', 'spa')]
     # second engine: CrossHair (crosshair-tool) on the same round trip, fixed n, symbolic booleans
